@@ -205,6 +205,7 @@ func runC09P(r *simkit.Run, c Cfg) {
 		p    *pending
 		ms   []multiaddr.Multiaddr
 		orig string
+		raw  []byte // malformed gossip payload
 	}
 	next := map[string]*job{}
 	worker := func(name string) {
@@ -314,6 +315,29 @@ func runC09P(r *simkit.Run, c Cfg) {
 						j.p.addrs, j.ms = mkAddrs()
 						watcherQ = append(watcherQ, j.p)
 					case "gossipT":
+						if tp.Chance(1, 6, "malformed") {
+							// what the watcher must skip without stopping:
+							// bytes that are no message, an original peer that
+							// is no peer ID, an address that is no multiaddr
+							uniq++
+							j.kind = "malformed"
+							bad := message.Message{Cid: j.p.c, ExtraData: []byte(fmt.Sprintf("m%d", uniq))}
+							switch tp.Choose(3, "malformedKind") {
+							case 0:
+								j.raw = append([]byte{0xff, 0x00}, []byte(fmt.Sprintf("garbage-%d", uniq))...)
+							case 1:
+								bad.OrigPeer = "not-a-peer-id"
+							default:
+								bad.Addrs = [][]byte{{0x04, 1, 2}}
+							}
+							if j.raw == nil {
+								var b bytes.Buffer
+								bad.MarshalCBOR(&b)
+								j.raw = b.Bytes()
+							}
+							r.Probe("malformed-gossip-message")
+							break
+						}
 						o := origs[tp.Choose(len(origs), "orig")]
 						j.kind, j.orig, j.p.src, j.p.kind = "gossip", o.ID.String(), o.ID, "republished by T for "+o.Name
 						j.p.addrs, j.ms = mkAddrs()
